@@ -26,3 +26,32 @@ func init() {
 		Mutant{Name: "c01-keep-tighter-guard", Prop: "C01", File: ra, Old: "a.EquivalentPlmns.Len > 45", New: "a.EquivalentPlmns.Len > 44", Keep: true, Why: "tighter bound is still safe (C04 objects, C01 does not)"},
 	)
 }
+
+func init() {
+	const mi = "nasType/NAS_MobileIdentity5GS.go"
+	addMutants(
+		// ---- C14 (each repaired defect must be re-found when it returns)
+		Mutant{Name: "c14-type-of-identity-unguarded", Prop: "C14", File: mi, Old: "\tif len(a.Buffer) == 0 {\n\t\treturn \"\", errors.New(\"empty mobile identity\")\n\t}\n", New: "",
+			Expect: "safe.index / nasType.(*MobileIdentity5GS).GetTypeOfIdentity", Why: "empty mobile identity indexes octet 0"},
+		Mutant{Name: "c14-suci-short", Prop: "C14", File: mi, Old: "\t\tif len(a.Buffer) < 9 {\n\t\t\treturn \"\"\n\t\t}\n", New: "\t\tif len(a.Buffer) < 8 {\n\t\t\treturn \"\"\n\t\t}\n",
+			Expect: "nasType.(*MobileIdentity5GS).GetSUCI", Why: "8-octet SUCI with null scheme: empty MSIN, index -1"},
+		Mutant{Name: "c14-upuack-order", Prop: "C14", File: "nasConvert/UPUInfo.go", Old: "(len(buf) != 17) || (buf[0] != 0x01)", New: "(buf[0] != 0x01) || (len(buf) != 17)",
+			Expect: "safe.index / nasConvert.UpuAckToModels", Why: "index before length test"},
+		Mutant{Name: "c14-uesec-3", Prop: "C14", File: "nasConvert/UESecurityCapability.go", Old: "if len(buf) > 3 {", New: "if len(buf) > 2 {",
+			Expect: "safe.index / nasConvert.UESecurityCapabilityToByteArray", Why: "3-octet capability reads octet 3"},
+		Mutant{Name: "c14-amfid-len", Prop: "C14", File: "nasConvert/AmfId.go", Old: "if len(amfIdBytes) != 3 {", New: "if len(amfIdBytes) > 3 {",
+			Expect: "safe.index / nasConvert.AmfIdToNasWithError", Why: "short AMF id indexes past the end"},
+		Mutant{Name: "c14-ladn-zero-len", Prop: "C14", File: "nasConvert/Ladn.go", Old: "if lenOfDnn == 0 || bufOffset+lenOfDnn > len(buf) {", New: "if bufOffset+lenOfDnn > len(buf) {",
+			Expect: "safe.loop / nasConvert.LadnToModels", Why: "a zero length octet never advances: endless loop"},
+		Mutant{Name: "c14-ladn-overrun", Prop: "C14", File: "nasConvert/Ladn.go", Old: "if lenOfDnn == 0 || bufOffset+lenOfDnn > len(buf) {", New: "if lenOfDnn == 0 {",
+			Expect: "safe.slice / nasConvert.LadnToModels", Why: "length past the end of the buffer"},
+		Mutant{Name: "c14-dnn-empty", Prop: "C14", File: "nasType/NAS_DNN.go", Old: "\tif len(fqdn) == 0 {\n\t\treturn \"\"\n\t}\n", New: "",
+			Expect: "safe.slice / nasType.rfc1035tofqdn", Why: "empty DNN slices [:-1]"},
+		Mutant{Name: "c14-nssai-wrap", Prop: "C14", File: "nasConvert/Nssai.go", Old: "\tdefault:\n\t\treturn snssai, fmt.Errorf(\"Invalid length of S-NSSAI contents: %d\", lengthOfSnssaiContents)", New: "\tdefault:\n\t\treturn snssai, nil",
+			Expect: "nasConvert.RequestedNssaiToModels", Why: "unknown lengths accepted: 255+1 wraps to 0 in uint8 and the walker stops advancing"},
+		Mutant{Name: "c14-suci-convert-short", Prop: "C14", File: "nasConvert/MobileIdentity5GS.go", Old: "\tif len(buf) < 9 {\n\t\treturn \"\", \"\", errors.New(\"too short SUCI\")\n\t}\n", New: "\tif len(buf) < 8 {\n\t\treturn \"\", \"\", errors.New(\"too short SUCI\")\n\t}\n",
+			Expect: "nasConvert.SuciToStringWithError", Why: "empty MSIN indexes -1"},
+		Mutant{Name: "c14-keep-guard-form", Prop: "C14", File: "nasConvert/UESecurityCapability.go", Old: "if len(buf) > 3 {", New: "if len(buf) >= 4 {", Keep: true, Why: "same guard"},
+		Mutant{Name: "c14-keep-early-return", Prop: "C14", File: "nasConvert/UPUInfo.go", Old: "\tif (len(buf) != 17) || (buf[0] != 0x01) {", New: "\tif len(buf) != 17 {\n\t\treturn \"\", fmt.Errorf(\"NAS UPU Ack is not valid\")\n\t}\n\tif buf[0] != 0x01 {", Keep: true, Why: "guard split in two"},
+	)
+}
